@@ -96,6 +96,7 @@ class MerkleFamily(Family):
         versions = [list(leaves)]       # every version of the underlying list
 
         async def source(start, count):
+            # the data is obtained at some instant and arrives later (a thread job reading the headers file)
             if op['lat']:
                 await asyncio.sleep(ch.delay(0.0, op['lat']))
             else:
@@ -103,6 +104,10 @@ class MerkleFamily(Family):
             out = leaves[start:start + count]
             if len(out) != count:
                 raise HarnessError(f'source asked for {start}+{count} of {len(leaves)}')
+            if op['lat']:
+                await asyncio.sleep(ch.delay(0.0, op['lat']))
+            else:
+                await asyncio.sleep(0)
             return out
 
         cache = MerkleCache(merkle, source)
